@@ -707,48 +707,73 @@ func runBoundedParallel(prog *Program, harness string, N int, workers int, budge
 	}
 	ch := make(chan wres, workers)
 	self, _ := os.Executable()
+	requeue := func(chunk [][]decision) {
+		qmu.Lock()
+		queue = append(queue, chunk...)
+		inflight--
+		qmu.Unlock()
+		qcond.Broadcast()
+	}
 	for w := 0; w < workers; w++ {
 		go func() {
 			acc := &BResult{Unsupported: map[string]int{}}
-			cmd := exec.Command(self, "bounded-worker")
-			cmd.Env = append(os.Environ(), "GOVC_REPO="+repoDir, "GOMAXPROCS=2")
-			stdin, _ := cmd.StdinPipe()
-			stdout, _ := cmd.StdoutPipe()
-			cmd.Stderr = os.Stderr
-			if err := cmd.Start(); err != nil {
-				ch <- wres{nil, err}
-				return
-			}
-			rd := bufio.NewReaderSize(stdout, 1<<20)
 			var ferr error
+			// A worker that dies (killed by the kernel under memory pressure, say) says nothing about the property:
+			// its batch goes back on the queue and a fresh worker is started; only repeated deaths end the
+			// exploration with an error.
+			deaths := 0
+		respawn:
 			for {
-				chunk := take()
-				if chunk == nil {
-					break
+				cmd := exec.Command(self, "bounded-worker")
+				cmd.Env = append(os.Environ(), "GOVC_REPO="+repoDir, "GOMAXPROCS=2", "GOMEMLIMIT=2GiB")
+				stdin, _ := cmd.StdinPipe()
+				stdout, _ := cmd.StdoutPipe()
+				cmd.Stderr = os.Stderr
+				if err := cmd.Start(); err != nil {
+					ch <- wres{acc, err}
+					return
 				}
-				in, _ := json.Marshal(map[string]interface{}{"harness": harness, "n": N, "prefixes": encodePrefixes(chunk), "budget_s": budget.Seconds() - time.Since(t0).Seconds(), "max_paths": 400})
-				if _, err := stdin.Write(append(in, '\n')); err != nil {
-					ferr = err
-					done(nil)
-					break
+				rd := bufio.NewReaderSize(stdout, 1<<20)
+				for {
+					chunk := take()
+					if chunk == nil {
+						stdin.Close()
+						cmd.Wait()
+						break respawn
+					}
+					in, _ := json.Marshal(map[string]interface{}{"harness": harness, "n": N, "prefixes": encodePrefixes(chunk), "budget_s": budget.Seconds() - time.Since(t0).Seconds(), "max_paths": 400})
+					_, werr := stdin.Write(append(in, '\n'))
+					var line []byte
+					var err error
+					if werr == nil {
+						line, err = rd.ReadBytes('\n')
+					}
+					if werr != nil || err != nil {
+						stdin.Close()
+						cmd.Process.Kill()
+						cmd.Wait()
+						deaths++
+						if deaths > 3 {
+							ferr = fmt.Errorf("worker died %d times: %v %v", deaths, werr, err)
+							done(nil)
+							break respawn
+						}
+						fmt.Fprintf(os.Stderr, "bounded worker died (%v %v); batch requeued, worker restarted\n", werr, err)
+						requeue(chunk)
+						continue respawn
+					}
+					var r wreply
+					if err := json.Unmarshal(line, &r); err != nil {
+						ferr = fmt.Errorf("worker output: %v: %s", err, clipS(string(line), 300))
+						done(nil)
+						stdin.Close()
+						cmd.Wait()
+						break respawn
+					}
+					acc.merge(&r.BResult)
+					done(decodePrefixes(r.More))
 				}
-				line, err := rd.ReadBytes('\n')
-				if err != nil {
-					ferr = fmt.Errorf("worker died: %v", err)
-					done(nil)
-					break
-				}
-				var r wreply
-				if err := json.Unmarshal(line, &r); err != nil {
-					ferr = fmt.Errorf("worker output: %v: %s", err, clipS(string(line), 300))
-					done(nil)
-					break
-				}
-				acc.merge(&r.BResult)
-				done(decodePrefixes(r.More))
 			}
-			stdin.Close()
-			cmd.Wait()
 			if os.Getenv("GOVC_DEBUG") != "" {
 				fmt.Fprintf(os.Stderr, "worker done: %d paths (at %.1fs)\n", acc.Paths, time.Since(t0).Seconds())
 			}
